@@ -17,7 +17,7 @@ EXPLANATION = (
     'pass-2 test reads a variable that is stored only in pass 1. PASS-SIZE: a pass-2 test of a symbol-derived value against a '
     'constant whose arms emit different byte counts when the memo says "unknown" is a violation; tests whose arms are not '
     'finite byte sets (table search loops) are listed as not decided, with the triage classification (forward-reference '
-    'experiments, triage/passsize/) where there is one. FIXED-PAD: in the variable-length emitters every return is dominated by a test of the fixed_size parameter (no value bypasses the padding that keeps forward references the same length in both passes). Not decided: size decisions taken through strings or table rows '
+    'experiments, triage/passsize/) where there is one. FIXED-PAD: in the variable-length emitters every return is dominated by a test of the fixed_size parameter (no value bypasses the padding that keeps forward references the same length in both passes). MEMO-COVER: a pass-1 memo of a flag is not restricted to fewer operand kinds than the size tests that read the flag. Not decided: size decisions taken through strings or table rows '
     '(68000 add->addq alias), parser-level differences between the passes (ignore_operand swallowing a closing token).')
 
 
@@ -91,7 +91,37 @@ def symset(prog):
                       'so a symbol assigned twice has its last pass-1 value everywhere in pass 2' % (
                           ' '.join(str(x) for x in ['entry->address = address']), 'locked test at line %d' % bad['l']),
                       'the store is not control dependent on `locked`', False))
-    return RuleResult('SYM-SET', obs, 1, {})
+    # the directive side: every call of Symbols::set in the directive handlers runs in both passes
+    from nk.facts import callee
+    ncall = 0
+    for f2 in prog.functions(lambda f: f.file.startswith('core/directives') and f.blocks):
+        for c in f2.calls():
+            if (callee(c) or '').split('(')[0] != 'Symbols::set':
+                continue
+            ncall += 1
+            bad = None
+            prev = c
+            for anc in f2.ancestors(c):
+                if anc['k'] == 'IfStmt' and any(x['k'] == 'MemberExpr' and x.get('n') == 'pass' for x in common_walk(kids(anc)[0])) \
+                        and prev['i'] != kids(anc)[0]['i']:
+                    bad = kids(anc)[0]
+                if anc['k'] == 'BinaryOperator' and anc.get('op') in ('&&', '||') and prev['i'] == kids(anc)[1]['i'] and \
+                        any(x['k'] == 'MemberExpr' and x.get('n') == 'pass' for x in common_walk(kids(anc)[0])):
+                    bad = kids(anc)[0]          # `pass == 1 && symbols.set(...)`
+                prev = anc
+            obs.append(Ob('SYM-SET', f2.file, c['l'], f2.q, 'call-set#%d' % ncall, VIOLATED if bad is not None else DISCHARGED,
+                          '' if bad is None else 'the assignment of the .set symbol only runs under `%s`: the other pass does not '
+                          'replay it, so uses before the last assignment see another value than in pass 1' % show_(bad),
+                          'Symbols::set is called in both passes', False))
+    if ncall == 0:
+        from nk.build import AnalysisBroken
+        raise AnalysisBroken('SYM-SET: no call of Symbols::set in the directive handlers')
+    return RuleResult('SYM-SET', obs, 2, {})
+
+
+def show_(n):
+    from nk.facts import show
+    return show(n)[:40]
 
 
 def common_walk(n):
@@ -104,5 +134,5 @@ def run(tier, t0):
     cg = common.callgraph()
     results = [passes.interpass(prog), passes.addsym(prog), passes.rpass(prog, cg), passes.default_cpu(prog, cg), symlock(prog),
                passsize.memo_gov(prog), passsize.memo_pair(prog), passsize.memo_survives(prog, cg), passsize.memo_addr(prog),
-               passsize.pass_flag(prog), passsize.pass_size(prog), passsize.memo_thresh(prog), symset(prog), passsize.varlen_emit(prog), passsize.fixed_pad(prog)]
+               passsize.pass_flag(prog), passsize.pass_size(prog), passsize.memo_thresh(prog), symset(prog), passsize.varlen_emit(prog), passsize.fixed_pad(prog), passsize.memo_cover(prog, 1)]
     return report.finish('C02', tier, results, EXPLANATION, [], common.TRUSTED, t0)
